@@ -234,7 +234,8 @@ def coq_eval_shards(pid, shards, timeout=900):
         paths.append(p)
 
     def one(p):
-        rc, out, dt = sh(["coqc", "-noglob", "-Q", COQ, "EC", "-Q", d, "Cases", p], timeout=timeout)
+        # long case literals overflow coqc's default stack
+        rc, out, dt = sh("ulimit -s unlimited 2>/dev/null || ulimit -s 1000000 2>/dev/null; exec coqc -noglob -Q '%s' EC -Q '%s' Cases '%s'" % (COQ, d, p), timeout=timeout)
         return rc, out
 
     with concurrent.futures.ThreadPoolExecutor(max_workers=16) as ex:
